@@ -99,6 +99,15 @@ inductive Plan
   | classical (useP : Bool) (primaryGiven : Bool) (peri : Peri) (lon : Lon)
 deriving DecidableEq, Repr
 
+instance : DecidableEq (Except Err Plan) := fun a b =>
+  match a, b with
+  | .error x, .error y =>
+    if h : x = y then isTrue (by rw [h]) else isFalse (by intro h'; cases h'; exact h rfl)
+  | .ok x, .ok y =>
+    if h : x = y then isTrue (by rw [h]) else isFalse (by intro h'; cases h'; exact h rfl)
+  | .error _, .ok _ => isFalse (by intro h; cases h)
+  | .ok _, .error _ => isFalse (by intro h; cases h)
+
 /-- membership lists of the five C counters / the four Python lists -/
 structure Tab where
   cart : List Arg
@@ -125,11 +134,30 @@ def count (p : Presence) : List Arg → Nat
   | [] => 0
   | q :: r => (p.get q).toNat + count p r
 
+/-- the arguments whose individual presence is tested after the counters -/
+structure Flags where
+  sim : Bool
+  primary : Bool
+  a : Bool
+  P : Bool
+  omega : Bool
+  pomega : Bool
+  f : Bool
+  M : Bool
+  E : Bool
+  l : Bool
+  theta : Bool
+  T : Bool
+deriving DecidableEq, Repr
+
+def flags (p : Presence) : Flags :=
+  ⟨p.sim, p.primary, p.a, p.P, p.omega, p.pomega, p.f, p.M, p.E, p.l, p.theta, p.T⟩
+
 /-! ## C front end -/
 
 /-- the chain of `if (!isnan(..))` after `Nlong==1` (tools.c:891-915): with exactly one
     longitude present, the one that determines `f` -/
-def cLon (p : Presence) (nlong : Nat) : Lon :=
+def cLon (p : Flags) (nlong : Nat) : Lon :=
   if nlong == 0 then .dflt
   else if p.theta then .theta
   else if p.l then .l
@@ -138,25 +166,30 @@ def cLon (p : Presence) (nlong : Nat) : Lon :=
   else if p.E then .E
   else .f
 
-def cPeri (p : Presence) : Peri :=
+def cPeri (p : Flags) : Peri :=
   if !p.omega && !p.pomega then .dflt else if p.pomega then .pomega else .omega
 
+/-- tools.c:803-916 after the counters have been computed; `cartPos` is `Ncart>0` etc. -/
+def cCore (cartPos orbPos nonpalPos palPos : Bool) (Nlong : Nat) (p : Flags) : Except Err Plan :=
+  if nonpalPos && palPos then .error .palMix
+  else if cartPos && orbPos then .error .cartMix
+  else if cartPos || !orbPos then .ok .cartesian
+  else if !p.sim then .error .noSim
+  else if !p.a && !p.P then .error .noAP
+  else if p.a && p.P then .error .bothAP
+  else if palPos then .ok (.pal (!p.a) p.primary p.l)
+  else if p.omega && p.pomega then .error .bothPeri
+  else if Nlong > 1 then .error .manyLong
+  else .ok (.classical (!p.a) p.primary (cPeri p) (cLon p Nlong))
+
+/-- tools.c:752-801: the five counters, then the decisions -/
 def cValidate (t : Tab) (p : Presence) : Except Err Plan :=
   let Ncart := count p t.cart
   let Norb := count p t.orb
   let Nnonpal := count p t.nonpal
   let Npal := count p t.pal
   let Nlong := count p t.long
-  if Nnonpal > 0 && Npal > 0 then .error .palMix
-  else if Ncart > 0 && Norb > 0 then .error .cartMix
-  else if Ncart > 0 || Norb == 0 then .ok .cartesian
-  else if !p.sim then .error .noSim
-  else if !p.a && !p.P then .error .noAP
-  else if p.a && p.P then .error .bothAP
-  else if Npal > 0 then .ok (.pal (!p.a) p.primary p.l)
-  else if p.omega && p.pomega then .error .bothPeri
-  else if Nlong > 1 then .error .manyLong
-  else .ok (.classical (!p.a) p.primary (cPeri p) (cLon p Nlong))
+  cCore (Ncart > 0) (Norb > 0) (Nnonpal > 0) (Npal > 0) Nlong (flags p)
 
 /-! ## Python front end -/
 
@@ -167,7 +200,7 @@ def notNone (p : Presence) (l : List Arg) : Bool := count p l != 0
 def countNone (p : Presence) (l : List Arg) : Nat := l.length - count p l
 
 /-- the `if f is not None … elif theta … elif l … elif T … elif M … elif E` chain -/
-def pyLon (p : Presence) : Lon :=
+def pyLon (p : Flags) : Lon :=
   if p.f then .f
   else if p.theta then .theta
   else if p.l then .l
@@ -176,24 +209,30 @@ def pyLon (p : Presence) : Lon :=
   else if p.E then .E
   else .dflt
 
-def pyValidate (t : Tab) (p : Presence) : Except Err Plan :=
-  if notNone p t.nonpal && notNone p t.pal then .error .palMix
-  else if notNone p t.cart && notNone p t.orb then .error .cartMix
-  else if notNone p t.orb then
+/-- particle.py:300-390 given the values of the `notNone(..)` / `count(None)` expressions -/
+def pyCore (nnNonpal nnPal nnCart nnOrbi : Bool) (nonePeri noneLong : Nat) (p : Flags) :
+    Except Err Plan :=
+  if nnNonpal && nnPal then .error .palMix
+  else if nnCart && nnOrbi then .error .cartMix
+  else if nnOrbi then
     if !p.sim then .error .noSim
     else if !p.a && !p.P then .error .noAP
     else if p.a && p.P then .error .bothAP
-    else if notNone p t.pal then .ok (.pal (!p.a) p.primary p.l)
+    else if nnPal then .ok (.pal (!p.a) p.primary p.l)
     else
-      let numNones := countNone p [.omega, .pomega]
+      let numNones := nonePeri
       if numNones == 0 then .error .bothPeri
       else
         let peri : Peri := if numNones == 2 then .dflt else if p.pomega then .pomega else .omega
-        let numNones := countNone p t.long
+        let numNones := noneLong
         if numNones < 5 then .error .manyLong
         else if numNones == 6 then .ok (.classical (!p.a) p.primary peri .dflt)
         else .ok (.classical (!p.a) p.primary peri (pyLon p))
   else .ok .cartesian
+
+def pyValidate (t : Tab) (p : Presence) : Except Err Plan :=
+  pyCore (notNone p t.nonpal) (notNone p t.pal) (notNone p t.cart) (notNone p t.orb)
+    (countNone p [.omega, .pomega]) (countNone p t.long) (flags p)
 
 /-! ## the summary both validators factor through
 
